@@ -1,9 +1,9 @@
 import Hm.BlockCheck
+import Hm.C13Bytes
 
 /-! Non-vacuity of the block theorems: a stream written by zlib 1.x (level 9, one `Z_FULL_FLUSH`) — a dynamic-Huffman
-    block, an empty stored block and a fixed-Huffman block — has exactly the bits `blocksBits 0 exBlocks` (`exBitList` = the bits of `exRaw`, least significant first, without
-    the zero padding of the last byte; that `packBits exBitList = exRaw` is checked by the C13 check's `encoder-spec`
-    family, which runs the compiled definitions) for the block description below (recovered from the stream by tools/deflate_blocks.py), the description satisfies `Block.Ok`, and
+    block, an empty stored block and a fixed-Huffman block — has exactly the bits `blocksBits 0 exBlocks` followed by the padding of the last byte (`exBitList`, `ex_bytes`) for the
+    block description below (recovered from the stream by tools/deflate_blocks.py), the description satisfies `Block.Ok`, and
     its expansion is the data.  All three facts are evaluated by the kernel. -/
 
 def exData : Bytes := [97, 100, 99, 97, 98, 98, 98, 100, 97, 97, 100, 97, 99, 97, 98, 99, 97, 102, 101, 97, 97, 98, 101, 97, 97, 97, 97, 97, 97, 98, 97, 97, 97, 98, 97, 97, 100, 98, 98, 97, 103, 100, 97, 97, 99, 99, 101, 97, 100, 99, 97, 98, 100, 100, 98, 98, 97, 97, 100, 97, 72, 105, 33]
@@ -17,6 +17,8 @@ def exBlocks : List Block := [Block.dyn ⟨4, 10, 12, [0, 0, 3, 2, 0, 0, 0, 0, 0
 /-- the bits of `exRaw`, least significant first, without the padding of the last byte -/
 def exBitList : List Bool := [false, false, true, false, false, true, false, false, false, true, false, true, false, false, false, true, true, false, false, false, false, false, false, true, true, false, false, true, false, false, false, false, false, false, false, false, false, false, false, false, false, false, false, false, true, true, false, false, false, false, true, true, false, false, false, false, false, true, false, false, false, false, true, true, false, true, true, true, false, true, true, false, true, false, true, true, false, false, false, true, false, true, false, true, true, false, true, true, true, false, true, true, false, true, true, true, true, true, true, true, true, true, true, true, true, true, true, true, false, false, false, false, false, true, true, false, false, true, true, false, true, false, false, true, true, false, false, true, false, false, false, false, true, false, false, false, false, false, false, false, true, false, false, true, false, false, false, false, true, false, false, false, false, true, false, false, false, true, true, false, false, false, true, false, false, true, false, false, true, false, true, false, false, false, false, false, false, true, false, false, false, false, true, false, true, true, true, true, true, false, false, true, true, false, false, true, true, true, false, false, true, true, false, false, false, false, false, false, false, true, false, true, false, true, false, false, true, true, false, true, true, true, false, false, true, false, true, true, true, true, true, false, false, true, false, false, false, true, false, false, true, false, false, false, true, true, true, false, true, true, false, true, true, false, true, false, false, false, false, true, true, false, true, true, true, true, false, false, false, false, true, true, false, true, true, false, false, true, true, true, true, false, false, true, true, false, true, false, true, false, false, false, true, false, true, true, false, true, true, true, true, true, true, true, true, false, false, false, false, false, false, false, false, false, false, false, false, false, false, false, false, false, false, false, false, false, false, false, true, true, true, true, true, true, true, true, true, true, true, true, true, true, true, true, true, true, false, false, true, true, true, true, false, false, false, true, false, false, true, true, false, false, true, false, true, false, true, false, false, false, true, false, false, false, false, false, false, false]
 
+def exPad : List Bool := [false, false, false, false, false, false]
+
 /-- the bits zlib wrote are the encoding of the block description -/
 theorem ex_bits0 : blocksBits 0 exBlocks = exBitList := by decide +kernel
 
@@ -26,8 +28,12 @@ theorem ex_ok : exBlocks.all blockOkB = true := by decide +kernel
 /-- and expands to the data -/
 theorem ex_expand : (expandBlocks #[] exBlocks).toList = exData := by decide +kernel
 
-/-- hence, by `C13_inflateRaw_blocks` (not by running the decoder), the packed stream inflates to the data -/
-theorem ex_inflate : inflateRaw (packBits exBitList) = some exData := by
-  have h := C13_inflateRaw_blocks exBlocks (by decide) (fun b hb => blockOkB_sound b (List.all_eq_true.mp ex_ok b hb))
-  rw [ex_bits0, ex_expand] at h
+/-- the bytes zlib wrote spell those bits and the padding of the last byte -/
+theorem ex_bytes : byteBits exRaw = exBitList ++ exPad := by decide +kernel
+
+/-- hence, by `C13_inflateRaw_bytes` (not by running the decoder), zlib's stream inflates to the data -/
+theorem ex_inflate : inflateRaw exRaw = some exData := by
+  have h := C13_inflateRaw_bytes exRaw exBlocks exPad (by decide) (fun b hb => blockOkB_sound b (List.all_eq_true.mp ex_ok b hb))
+    (by rw [ex_bits0]; exact ex_bytes)
+  rw [ex_expand] at h
   exact h
